@@ -175,6 +175,18 @@ func (r *run) apply(a map[string]any) {
 			return
 		}
 		r.deliver(to, m, name, ok)
+	case "RecvSubstProposal":
+		// an honest leader's proposal relayed with substituted FullData (not covered by the signature): the faithful
+		// spec refuses it (stuttering step), so acceptance is never expected; a decision reached on top of it is
+		// judged by the certificate monitor of deliver()
+		m := w.FindProposal(from, round, value)
+		if m == nil {
+			r.diverge(name+".message", "emitted by an honest operator (spec)", "not found among real broadcasts")
+			return
+		}
+		c := kit.CloneMsg(m)
+		c.FullData = kit.Value(vh.Str(a, "data"))
+		r.deliver(to, c, name, false)
 	case "RecvPrepare":
 		r.deliver(to, w.FindSimple(specqbft.PrepareMsgType, from, round, value), name, ok)
 	case "RecvByzPrepare":
